@@ -656,6 +656,7 @@ class Kernel:
         self.next_pid += 1
         p = Proc(self, pid, ppid, dict(env), list(argv))
         p.birth = self.s.now
+        p.exec_step = self.s.steps
         self.procs[pid] = p
         return p
 
